@@ -611,6 +611,7 @@ fn run_case(c: &mut Ctx, case: &Case, offs: &[i32]) {
     // ---- to_datetime_with_timezone (fixed zones, incl. Utc) ----
     let z = match (case.real, c.rng.below(3)) {
         (Some((_, o)), 0 | 1) => o,
+        (None, 0 | 1) if case.class == "zone-stage" => case.hint.unwrap(),
         (_, 2) => 0,
         _ => gen_offset(c),
     };
@@ -1428,6 +1429,42 @@ pub fn run(c: &mut Ctx) {
         if k < 4 {
             c.sample(&format!("{} [{}] -> date {}", case.class, dump_parsed(&build(&case.f)), show(guard(|| build(&case.f).to_naive_date()), |d| d.to_string())));
         }
+    }
+
+    // ---- the zone stage after a successful naive stage: offsets outside +-24 h, UTC readings outside the
+    // representable range, offset fields contradicting the zone (classes kinds:datetime:naive-ok:*, kinds:tz:naive-ok:*) ----
+    for k in 0..c.n(3000, 30000) {
+        let mut m = [false; NF];
+        for i in [YEAR, MONTH, DAY, HDIV, HMOD, MIN, SEC, OFF] {
+            m[i] = true;
+        }
+        let (l, off) = if k % 3 == 0 {
+            // next to the ends of the range: the UTC reading may not be representable
+            let first = k % 2 == 0;
+            let d = if first { NaiveDate::MIN } else { NaiveDate::MAX };
+            let secs = if first { c.rng.range(0, 7200) as u32 } else { 86399 - c.rng.range(0, 7200) as u32 };
+            let t = NaiveTime::from_num_seconds_from_midnight_opt(secs, 0).unwrap();
+            let o = c.rng.range(1, 10800) as i32;
+            (d.and_time(t), if first { o } else { -o })
+        } else {
+            gen_real(c, &m)
+        };
+        let all = fields_of(&l, off);
+        let mut f: Fields = [None; NF];
+        for i in 0..NF {
+            if m[i] {
+                f[i] = all[i];
+            }
+        }
+        let hint = off;
+        if k % 3 == 1 {
+            f[OFF] = Some(*c.rng.pick(&[86400i64, -86400, 86401, 90000, -90000, i32::MAX as i64, i32::MIN as i64, 86399, -86399]));
+        } else if k % 3 == 2 {
+            // an offset field next to the zone's offset: run_case resolves in the zone `hint`
+            f[OFF] = Some(off as i64 + *c.rng.pick(&[1i64, -1, 3600, 0]));
+        }
+        let case = Case { f, real: None, mask: m, class: "zone-stage", hint: Some(hint) };
+        run_case(c, &case, &[off]);
     }
 
     // ---- week-number resolution: every (week, weekday) for boundary years ----
